@@ -474,7 +474,8 @@ def _amen_solve_python(A, b, nswp=22, x0=None, eps=1e-10, rmax=1024, max_full=50
                     eps_local = real_tol * norm_rhs
                     drhs = Op.matvec(previous_solution.to(tn.float32), False)
                     drhs = rhs.to(tn.float32)-drhs
-                    eps_local = eps_local / tn.linalg.norm(drhs)
+                    # a vanishing local right-hand side: the tolerance is relative to the residual of the previous solution instead of zero
+                    eps_local = eps_local / tn.linalg.norm(drhs) if norm_rhs > 0 else real_tol
                     if local_solver == 1:
                         solution_now, flag, nit = gmres_restart(Op, drhs, previous_solution.to(
                             tn.float32)*0, rhs.shape[0], local_iterations+1, eps_local, resets)
@@ -502,7 +503,8 @@ def _amen_solve_python(A, b, nswp=22, x0=None, eps=1e-10, rmax=1024, max_full=50
                     eps_local = real_tol * norm_rhs
                     drhs = Op.matvec(previous_solution, False)
                     drhs = rhs-drhs
-                    eps_local = eps_local / tn.linalg.norm(drhs)
+                    # a vanishing local right-hand side: the tolerance is relative to the residual of the previous solution instead of zero
+                    eps_local = eps_local / tn.linalg.norm(drhs) if norm_rhs > 0 else real_tol
                     if local_solver == 1:
                         solution_now, flag, nit = gmres_restart(
                             Op, drhs, previous_solution*0, rhs.shape[0], local_iterations+1, eps_local, resets)
